@@ -243,6 +243,62 @@ def mapListBody (f : List Nat) (pos : Nat) (left : Nat) : Iter Nat Bool :=
 
 def mapListLoop (f : List Nat) (pos size : Nat) := run (mapListBody f) (f.length + 1) pos size 0
 
+/-! ### whole parsers: the loops composed
+
+`axmlDoc`: every `_do_next` call of a document, as `AXMLPrinter.__init__` / `get_apkid` drive them
+(`while self.axml.is_valid(): next(self.axml)`): after a tag / text event the next call starts at the
+position the previous one sought to (`h.end`); any other outcome (END_DOCUMENT, invalid parser, exception)
+ends the printer's loop.  The printer may leave its loop earlier (`break`, exception in the tree building);
+that only shortens the run.  Result: total number of chunk-loop iterations over all calls, and whether the
+sequence would never end (`true` = a call that does not move forward). -/
+
+def isTag : Ev → Bool
+  | .startTag | .endTag | .text => true
+  | _ => false
+
+def axmlDoc (f : List Nat) (filesize : Nat) (pos : Nat) (acc : Nat) : Nat × Bool :=
+  match doNext f filesize pos with
+  | .exit n (ev, p) =>
+    if isTag ev then
+      if _h : pos < p ∧ p < f.length then axmlDoc f filesize p (acc + n)
+      else if p ≤ pos then (acc + n, true)        -- the next call would start no further: never ends
+      else (acc + n + 1, false)                    -- at / beyond the end of the file the next call stops in its first iteration
+    else (acc + n, false)
+  | .cond n _ _ => (acc + n + 1, false)            -- `doNext`'s limit is the file length: one stopping iteration follows
+  | .stuck n _ => (acc + n, true)
+termination_by f.length - pos
+decreasing_by omega
+
+/-- `ARSCParser.__init__`: the outer chunk loop with, for every package chunk, the inner chunk loop.
+    `parse h` = the per-chunk work before the inner loop raises (string pools, package header, "more packages
+    than expected"); `extra h` = `type_sp_header.size + key_sp_header.size`, so that the inner loop starts at
+    `next_idx = res_header.start + res_header.header_size + extra`; `parseIn` = the per-chunk work of the inner loop
+    (type specs, types, entries) raises.  State: iterations of all inner loops so far. -/
+def arscParseBody (f : List Nat) (outerEnd : Nat) (parse parseIn : Hdr → Bool) (extra : Hdr → Nat)
+    (pos : Nat) (acc : Nat) : Iter Nat Nat :=
+  if ¬ (pos + ARSC_HEADER_SIZE ≤ outerEnd) then .stop acc               -- loop condition false
+  else match arscHeader f pos with
+  | .error _ => .stop acc
+  | .ok h =>
+    if h.start + h.size > outerEnd then .stop acc                       -- `break`
+    else if parse h then .stop acc
+    else if h.type = RES_TABLE_PACKAGE_TYPE then
+      match arscChunks f (h.start + h.size) parseIn (h.start + h.hsize + extra h) with
+      | .exit n (some (.raised _)) => .stop (acc + n)                  -- ResParserError / struct.error propagates
+      | .exit n (some .parseRaised) => .stop (acc + n)
+      | .exit n _ => .next (h.start + h.size) (acc + n)                -- inner `break` or condition: seek(res_header.end)
+      | .cond n _ _ => .next (h.start + h.size) (acc + n)
+      | .stuck n _ => .stop (acc + n)
+    else .next (h.start + h.size) acc
+
+/-- total iterations (outer + all inner) of `ARSCParser.__init__` from `pos`, and whether a loop is stuck -/
+def arscParse (f : List Nat) (outerEnd : Nat) (parse parseIn : Hdr → Bool) (extra : Hdr → Nat) (pos : Nat) :
+    Nat × Bool :=
+  match run (arscParseBody f outerEnd parse parseIn extra) (f.length + 1) pos 0 0 with
+  | .exit n acc => (n + acc, false)
+  | .cond n _ acc => (n + acc, false)
+  | .stuck n _ => (n, true)
+
 /-! ### regular expressions used by the parser modules
 
 The hand-audited list of pattern texts (as gen/loops.py prints them: non-ASCII and backslashes escaped by
